@@ -232,7 +232,7 @@ class TokTheory(ObjTheory):
     # ---- names / fields --------------------------------------------------------------
     def global_name(self, ex, name):
         if name in ("next", "Token", "frozenset", "set", "list", "sorted", "re", "linecount", "EmptyValueAtLine",
-                    "str", "len", "isinstance", "super", "int", "float", "abc", "tuple"):
+                    "str", "len", "isinstance", "super", "int", "float", "abc", "tuple", "any", "all"):
             return FuncV(name)
         return super().global_name(ex, name)
 
